@@ -62,5 +62,48 @@ fn main() {
     assert_eq!(COUNT.load(Ordering::SeqCst), 1);
     assert_eq!(*rw.read().unwrap(), 3);
     assert!(matches!(rx.recv_timeout(std::time::Duration::from_secs(1)), Err(mpsc::RecvTimeoutError::Disconnected)));
+    // scoped threads
+    {
+        let data = vec![1usize, 2, 3, 4];
+        let total = AtomicUsize::new(0);
+        let r = thread::scope(|s| {
+            let h = s.spawn(|| data.iter().sum::<usize>());
+            for x in &data {
+                let total = &total;
+                s.spawn(move || {
+                    total.fetch_add(*x, Ordering::SeqCst);
+                });
+            }
+            h.join().unwrap()
+        });
+        assert_eq!(r, 10);
+        assert_eq!(total.load(Ordering::SeqCst), 10);
+    }
+    // File / OpenOptions through the facade
+    {
+        use std::io::{Read, Seek, SeekFrom, Write};
+        let dir = std::env::temp_dir().join(format!("facade-smoke-{}", std::process::id()));
+        std::fs::create_dir_all(&dir).unwrap();
+        let p = dir.join("f.txt");
+        let mut f = std::fs::File::create(&p).unwrap();
+        f.write_all(b"hello ").unwrap();
+        drop(f);
+        let mut f = std::fs::OpenOptions::new().append(true).open(&p).unwrap();
+        f.write_all(b"world").unwrap();
+        drop(f);
+        let mut s = String::new();
+        std::fs::File::open(&p).unwrap().read_to_string(&mut s).unwrap();
+        assert_eq!(s, "hello world");
+        let mut f = std::fs::OpenOptions::new().read(true).write(true).open(&p).unwrap();
+        f.seek(SeekFrom::Start(6)).unwrap();
+        f.write_all(b"W").unwrap();
+        f.set_len(11).unwrap();
+        assert_eq!(f.metadata().unwrap().len(), 11);
+        drop(f);
+        assert_eq!(std::fs::read_to_string(&p).unwrap(), "hello World");
+        let r = std::io::BufReader::new(std::fs::File::open(&p).unwrap());
+        assert_eq!(std::io::BufRead::lines(r).count(), 1);
+        std::fs::remove_dir_all(&dir).unwrap();
+    }
     std::process::exit(0);
 }
